@@ -18,6 +18,12 @@ class Rule:
     def undecided(self, key, msg, loc=""):
         self.instances.append((key, "undecided", msg, loc))
 
+    def noverdict(self, key, msg, loc=""):
+        """a SUPPLEMENTARY clause whose anchor exists but whose code has a shape the rule does not model: no verdict is
+        given (neither counted as discharged nor reported).  Only for rules declared with floor 0 whose property is
+        carried by other rules; the rule still reports a violation whenever it positively identifies a wrong expression."""
+        self.instances.append((key, "no-verdict", msg, loc))
+
     def count(self, status=None):
         return sum(1 for i in self.instances if status is None or i[1] == status)
 
@@ -46,7 +52,7 @@ class Result:
                     # decide is reported (fail closed), not silently dropped from the count
                     out.append({"rule": r.name, "key": "%s|%s|undecided" % (r.name, key), "loc": loc,
                                 "msg": "UNDECIDED (failing closed: this instance is decided on the pinned tree): %s" % msg})
-            n = r.count() - r.count("undecided")
+            n = r.count() - r.count("undecided") - r.count("no-verdict")
             if n < r.floor:
                 out.append({"rule": r.name, "key": "%s|floor" % r.name, "loc": "",
                             "msg": "rule matched %d decided instances, below the confirmed floor of %d (anchor missing or code reshaped beyond what the rule understands) — failing closed" % (n, r.floor)})
@@ -87,7 +93,7 @@ def finish(res, level="other", explanation="", assumptions=(), trusted_base=(), 
         "rule": "one obligation per (rule, code site / configuration / table entry) found in the compiler IR of /repo's working tree; distinct = distinct (rule, instance-key) pairs",
         "samples": samples or [{"note": "no instances"}],
         "rules": [{"name": r.name, "what": r.desc, "instances": r.count(), "floor": r.floor, "ok": r.count("ok"),
-                   "violations": r.count("violation"), "undecided": r.count("undecided")} for r in res.rules],
+                   "violations": r.count("violation"), "undecided": r.count("undecided"), "no_verdict": r.count("no-verdict")} for r in res.rules],
         "undecided": undec[:60],
         "analysed": res.analysed,
         "known_findings_hit": [v["key"] for v in hit],
